@@ -22,22 +22,24 @@ static int accepted_again(Circuit &c, const char *what) {
 int main() {
   int bad = 0;
   for (int stage = 0; stage < 3; ++stage) {
+   for (int kind = 0; kind < 2; ++kind) {   // kind 1: the callback throws an object that is not derived from std::exception
     for (int throwAt = 0; throwAt < 40; ++throwAt) {
       Circuit c = make();
       int idx = 0; bool refused_inside = true; bool threw = false;
       PlacementCallback cb = [&](PlacementStep) {
         try { c.setRows(c.rows()); refused_inside = false; } catch (std::exception &) {}
-        if (idx++ == throwAt) throw std::runtime_error("callback failure");
+        if (idx++ == throwAt) { if (kind == 0) throw std::runtime_error("callback failure"); else throw 42; }
       };
       ColoquinteParameters p(1); p.global.maxNbSteps = 3;
       try {
         if (stage == 0) c.legalize(p, cb); else if (stage == 1) c.placeDetailed(p, cb); else c.placeGlobal(p, cb);
-      } catch (std::exception &e) { threw = true; }
+      } catch (std::exception &e) { threw = true; } catch (...) { threw = true; }
       if (!refused_inside) { printf("stage %d: setRows accepted while the call was in progress\n", stage); bad = 1; }
       char what[64]; snprintf(what, sizeof what, "stage %d, callback %d throws (%s)", stage, throwAt, threw ? "thrown" : "not reached");
       bad |= accepted_again(c, what);
       if (!threw) break;
     }
+   }
     // rejected parameters
     Circuit c = make(); ColoquinteParameters p(1); p.detailed.nbPasses = -1; p.global.maxNbSteps = -5; p.legalization.orderingWidth = 1e30;
     auto sol = c.solution();
